@@ -20,6 +20,14 @@ Definition twoport (t : C) (i j : nat) : C :=
 (* Waveguide(L, n = nr + i ni, wl): exp(2 pi i n L / wl) *)
 Definition wg_t (L nr ni wl : R) : C := cscale (exp (- (2 * PI * ni / wl * L))) (cis (2 * PI * nr / wl * L)).
 Definition Waveguide (L nr ni wl : R) := twoport (wg_t L nr ni wl).
+(* UserWaveguide(L, func, allowedmodes) with two modes: one waveguide per mode, each with the index its own
+   mode settings give (n0 for the first declared mode, n1 for the second); pins a0_m0 b0_m0 a0_m1 b0_m1 *)
+Definition UserWaveguide2 (L n0 n1 wl : R) (i j : nat) : C :=
+  match i, j with
+  | 0%nat, 1%nat | 1%nat, 0%nat => wg_t L n0 0 wl
+  | 2%nat, 3%nat | 3%nat, 2%nat => wg_t L n1 0 wl
+  | _, _ => C0
+  end.
 (* PhaseShifter(PS): exp(i pi PS) *)
 Definition PhaseShifter (PS : R) := twoport (cis (PI * PS)).
 (* TH_PhaseShifter(L, n, wl, PS): exp(i pi (2 n L / wl + PS)) *)
@@ -103,6 +111,12 @@ Proof.
   unfold wg_t. rewrite cabs2_cscale, cis_abs2.
   replace (- (2 * PI * 0 / wl * L)) with 0 by (unfold Rdiv; ring). rewrite exp_0. ring.
 Qed.
+(* every mode of a user waveguide is a lossless waveguide with that mode's own index; modes do not couple *)
+Theorem userwaveguide_modes L n0 n1 wl :
+  cabs2 (UserWaveguide2 L n0 n1 wl 0 1) = 1 /\ cabs2 (UserWaveguide2 L n0 n1 wl 2 3) = 1 /\
+  UserWaveguide2 L n0 n1 wl 0 1 = wg_t L n0 0 wl /\ UserWaveguide2 L n0 n1 wl 2 3 = wg_t L n1 0 wl /\
+  UserWaveguide2 L n0 n1 wl 0 3 = C0 /\ UserWaveguide2 L n0 n1 wl 2 1 = C0.
+Proof. simpl. rewrite !waveguide_lossless. repeat split; reflexivity. Qed.
 (* lossy waveguide: power transmission exp(-4 pi ni L / wl) *)
 Theorem waveguide_power L nr ni wl : cabs2 (wg_t L nr ni wl) = exp (- (4 * PI * ni / wl * L)).
 Proof.
